@@ -507,6 +507,36 @@ theorem remove_breaks_other_binding (env : List String) (s r : Stmt) (p1 p2 : Li
 example : undefReads [] [⟨[], ["first", "total"]⟩, ⟨["total"], []⟩] = [] ∧
     undefReads [] [⟨["total"], []⟩] = ["total"] := by decide
 
+/-! ## Fix routes: which code produces fixes, under which conditions, on which kind of node -/
+
+/-- **fix_routes_registered (tie to the live source).** The registry of fix routes regenerated from the current
+pyanalyze — every call of `replace_node` / `remove_node` / `Replacement(…)` / store into `_changes_for_fixer`
+in the producers' files, with the conditions it sits under and its callers — is the reviewed one
+(`Proofs/C16Routes.lean`). A dropped or changed guard, a new producer or a new caller breaks this. -/
+theorem fix_routes_registered : Gen.fixRoutes = pinnedRoutes := routes_registered
+
+/-- **fix_routes_kind_preserving.** Every `replace_node` route of the modelled producers rewrites a node that
+its guards / parameter types / visitor method show to be an expression (and builds nothing known to be a
+non-expression), or rewrites a statement by a statement. -/
+theorem fix_routes_kind_preserving : Gen.fixRoutes.all routeKindOk = true := routes_kind_ok
+
+/-- **replace_kind_preserving (full strength).** If the rewritten node and its replacement have the same
+category (expression for expression, statement for statement), every list field keeps the category of each of
+its entries: a statement list stays a statement list, an argument list a list of expressions. -/
+theorem replace_kind_preserving (cat : String → String) (target : Nat) (r : Tree) (items : ItemList)
+    (h : rootsKindOk cat target r items = true) :
+    itemCats cat (copyItems (replaceHook target r) items) = itemCats cat items := by
+  rw [copyItems_replace]
+  exact itemCats_subst cat target r items h
+
+/-- Without the precondition: a statement (`fmt %= n`, the whole `AugAssign`) handed to `replace_node` with an
+expression replacement leaves an expression where the body needs a statement. -/
+theorem replace_statement_by_expression_witness :
+    itemCats (catOf Gen.exprKinds Gen.stmtKinds)
+      (copyItems (replaceHook 5 (.mk "JoinedStr" 9 .nil)) (.cons (.tree (.mk "AugAssign" 5 .nil)) .nil)) = ["expr"] ∧
+    itemCats (catOf Gen.exprKinds Gen.stmtKinds) (.cons (.tree (.mk "AugAssign" 5 .nil)) .nil) = ["stmt"] := by
+  decide +kernel
+
 /-! ## Non-vacuity: the hypotheses are met by non-trivial inputs -/
 
 def exState : St :=
